@@ -711,32 +711,10 @@ func (it *Interp) runPendingGoroutines() {
 	}
 }
 
-func (it *Interp) chanSend(ch Value, v Value) {
-	c, ok := ch.(*ChanObj)
-	if !ok || c == nil {
-		it.abort("send on %T/nil channel", ch)
-	}
-	c.Buf = append(c.Buf, deepCopy(v))
-}
+// chanSend / chanRecv: capacity-respecting semantics live in models_chan.go.
+func (it *Interp) chanSend(ch Value, v Value) { it.chanSendModel(ch, v) }
 
-func (it *Interp) chanRecv(ch Value, commaOk bool) Value {
-	c, ok := ch.(*ChanObj)
-	if !ok || c == nil {
-		it.abort("receive on %T/nil channel", ch)
-	}
-	if len(c.Buf) == 0 {
-		it.runPendingGoroutines()
-	}
-	if len(c.Buf) == 0 {
-		it.abort("receive on empty channel would block forever (no runnable goroutine)")
-	}
-	v := c.Buf[0]
-	c.Buf = c.Buf[1:]
-	if commaOk {
-		return TupleV{v, it.C.True}
-	}
-	return v
-}
+func (it *Interp) chanRecv(ch Value, commaOk bool) Value { return it.chanRecvModel(ch, commaOk) }
 
 func (it *Interp) selectOp(fr *frame, x *ssa.Select) Value {
 	it.abort("select is not modelled")
